@@ -36,6 +36,9 @@ WellFormed == UNION {{[k |-> "ar", members |-> ms, gnu |-> g, bytes |-> RenderAr
                           g \in {x \in BOOLEAN : x => FitsGnu(ms)}, v \in (IF Len(ms) <= 1 THEN Vias ELSE {"bytes"})} : ms \in Models}
               \cup {[k |-> "ar", members |-> ms, gnu |-> FALSE, bytes |-> RenderAr(ms, FALSE), via |-> v] :
                           ms \in {<<Kind(DB, 1, FALSE), Kind(<<97>>, 2, FALSE)>>, <<Kind(<<97>>, 2, FALSE), Kind(DB, 1, FALSE)>>}, v \in Vias}
+              \* a member whose name begins with the byte that ends a header (LF), or is nothing but that byte, between others
+              \cup {[k |-> "ar", members |-> ms, gnu |-> FALSE, bytes |-> RenderAr(ms, FALSE), via |-> "bytes"] :
+                          ms \in {<<Kind(<<97>>, 2, FALSE), Kind(nm, n, FALSE), Kind(<<98>>, 1, FALSE)>> : nm \in {<<LF, 120>>, <<LF>>, <<120, LF>>}, n \in {0, 3}}}
 
 \* ---- corruptions ----------------------------------------------------------
 SmallKinds == {Kind(nm, n, FALSE) : nm \in {<<97>>, DB}, n \in Sizes}
@@ -59,7 +62,7 @@ GlobalMagicVecs == {[k |-> "arraw", bytes |-> [RenderAr(ms, FALSE) EXCEPT ![i] =
 \* symbol table "/", BSD "#1/<len>"): every ordered pair and triple of them as members - nothing must be looked up
 \* outside a member because of what a NAME says
 SpecialNames == {<<SLASH, SLASH>>, <<SLASH>>, <<SLASH, 48>>, <<SLASH, 45, 49>>, <<SLASH, 43, 49>>, <<SLASH, 57, 57, 57, 57, 57, 57, 57, 57, 57>>,
-                 <<SLASH, 120>>, <<35, 49, SLASH, 52>>, <<35, 49, SLASH, 45, 49>>, <<97>>}
+                 <<SLASH, 120>>, <<35, 49, SLASH, 52>>, <<35, 49, SLASH, 45, 49>>, <<97>>, <<LF, 120>>, <<LF>>}
 SpecialKinds == {Kind(nm, n, FALSE) : nm \in SpecialNames, n \in {0, 3}}
 SpecialVecs == {[k |-> "arraw", bytes |-> RenderAr(ms, FALSE)] :
                    ms \in {<<a, b>> : a \in {Kind(<<SLASH, SLASH>>, 3, FALSE), Kind(<<SLASH>>, 3, FALSE), Kind(<<97>>, 3, FALSE)}, b \in SpecialKinds}
